@@ -375,6 +375,16 @@ def check_fixed_size(out, facts, S):
                     return 'none' if item is None else ('some', item)
                 if x[0] == 'adt' and x[1].endswith('Option') and x[2] == 'None':
                     return 'none'
+                if x[0] == 'res' and contains(x[1], lambda y: isinstance(y, tuple) and y and y[0] == 'unwrapped' and is_item_call(y[1])) and \
+                        not contains(x[1], lambda y: isinstance(y, tuple) and y and y[0] == 'tried'):
+                    # `T::encoded_fixed_size().map(|size| ..)`: None stays None, Some(size) becomes Some(closure(size))
+                    if item is None:
+                        return 'none'
+                    try:
+                        k_ = eval_expr(x[1], leaf)
+                    except ArithPanic:
+                        return None
+                    return ('some', k_) if isinstance(k_, int) else None
                 if x[0] == 'opt':
                     if item is None and contains(x[1], lambda y: isinstance(y, tuple) and y and y[0] == 'tried' and is_item_call(y[1])):
                         return 'none'       # `?` on None leaves the function with None
